@@ -33,7 +33,7 @@ MANIFEST = {
     "level_note": "Trusted: harness reference of the filtered catalog list; fresh-forecast comparison for evaluations. Aborted passes are outside the quantifier.",
 }
 WATCHDOG_S = {"quick": 1200, "thorough": 7200}
-OPS = ["ITER", "COUNTS", "RATES", "SCOUNTS", "MCOUNTS", "N", "S", "M", "PL", "RM", "MLL"]
+OPS = ["ITER", "COUNTS", "RATES", "SCOUNTS", "SCART", "MCOUNTS", "N", "S", "M", "PL", "RM", "MLL"]
 STATE_OPS = ["ITER", "COUNTS", "RATES", "N", "S", "M"]
 SOURCES = ["memory", "memory_no_ncat", "file_store", "file_nostore"]
 MIN_MAG = 4.95
@@ -168,6 +168,8 @@ def do_op(ctx, op, f, obs):
         return ctx.call(f.get_expected_rates)
     if op == "SCOUNTS":
         return ctx.call(lambda: numpy.asarray(f.spatial_counts()))
+    if op == "SCART":
+        return ctx.call(lambda: numpy.asarray(f.spatial_counts(cartesian=True)))
     if op == "MCOUNTS":
         return ctx.call(lambda: numpy.asarray(f.magnitude_counts()))
     fn = {"N": ce.number_test, "S": ce.spatial_test, "M": ce.magnitude_test, "PL": ce.pseudolikelihood_test,
@@ -239,10 +241,13 @@ def _run_history(ctx, fc, cfg, ops, tmp, cache):
                     ctx.violate("expected rates differ between requests", rc, tags=dict(tags, clause="rates-stable"))
                 if first_rates is None:
                     first_rates = val
-        elif op in ("SCOUNTS", "MCOUNTS"):
+        elif op in ("SCOUNTS", "MCOUNTS", "SCART"):
             ctx.mon("history:rates", 1)
-            want = mean.sum(axis=1) if op == "SCOUNTS" else mean.sum(axis=0)
-            if not numpy.allclose(val, want, rtol=1e-12, atol=0):
+            want = mean.sum(axis=1) if op != "MCOUNTS" else mean.sum(axis=0)
+            if op == "SCART":
+                # the bounding-box layout of the same per-cell values (the layout itself is C01's business)
+                want = numpy.asarray(reg.get_cartesian(want), dtype=float)
+            if numpy.shape(val) != numpy.shape(want) or not numpy.allclose(val, want, rtol=1e-12, atol=0):
                 ctx.violate("forecast marginal counts != marginals of the mean rates", rc, observed=val, expected=want, tags=dict(tags, clause="marginals"))
         else:
             ctx.mon("history:evaluation-independence", 1)
